@@ -165,7 +165,11 @@ fn judge_axis<S: Ora, C: Cv<S>>(cx: &mut Cx, cv: C, cp: &[P3<S>], ax: usize, kno
         let d = dbez1(&c, r.up());
         // floats: a backward-stable root has residual ~ eps*(|A|+|B|+|C|); allow the conditioning of the
         // textbook formula on well-scaled input
-        let dtol = 256.0 * S::eps() * dscale;
+        // plus the rounding of the coefficients themselves: A, B, C are differences of the stored controls, each
+        // computed to within a few eps * max|control| (a curve far from the origin relative to its size -- found by
+        // the fuzz campaign of the thorough tier: controls -99.99981, -99.999985, -100, -100 in f32)
+        let cmax = c.iter().fold(0.0f64, |m, x| m.max(x.f().abs()));
+        let dtol = 256.0 * S::eps() * dscale + 64.0 * S::eps() * cmax;
         let mut ok = eqv(cx, d, <S::O>::zero(), dtol);
         if !ok && !S::EXACT {
             // (ii) flat-region criterion: a true critical parameter within 1e-2 where the coordinate differs
